@@ -40,3 +40,61 @@ def scan(ctx, qualname):
         if a not in ctx.assumptions:
             ctx.assumptions.append(a)
     return uscan.scan(ctx.model, qualname, opts, key='std')
+
+
+# ------------------------------------------------------------------------------------------------ recipe level
+def _step(kind):
+    """An abstract RecipeStep whose records hold containers ('container') or plates ('plate')."""
+    from ..unitai import Contents
+
+    def rec():
+        elem = Cont('state') if kind == 'container' else Obj('Plate')
+        r = ListV([elem])
+        r.open, r.elem = True, elem
+        return r
+    return Obj('RecipeStep', {'to': rec(), 'frm': rec(), 'trash': Contents(Cont('trash')),
+                              'substances_used': Other('set'), 'objects_used': Other('set'),
+                              'instructions': Other('str'), 'operator': Other('str')})
+
+
+def _recipe(kind):
+    steps = ListV([_step(kind)])
+    steps.open, steps.elem = True, steps[0]
+    return Obj('Recipe', {'steps': steps, 'stages': Other('stages'), 'results': Other('results'),
+                          'used': Other('used')})
+
+
+def _recipe_alts(_):
+    return [('records=containers', lambda: _recipe('container')), ('records=plates', lambda: _recipe('plate'))]
+
+
+RECIPE_OPTS = {'interp': {'strict_other': False}}
+
+
+def _mk_recipe_target(extra_params=None):
+    params = {'self': _recipe_alts(None)}
+    params.update(extra_params or {})
+    return {'params': params, 'interp': {'strict_other': False}}
+
+
+TARGETS.update({
+    'PlateSlicer.get_volumes': ({'interp': {'unit_bases': ('L',)}}, ['the unit argument of a volume observer is a volume unit']),
+    'PlateSlicer.get_moles': ({'interp': {'unit_bases': ('mol',)}}, ['the unit argument of a mole observer is a mole unit']),
+    'PlateSlicer.dataframe': ({'params': {'cmap': [('', lambda: NONE)], 'highlight': [('', lambda: Other('bool'))]}}, []),
+    'RecipeStep.dataframe': ({'params': {'self': [('records=containers', lambda: _step('container')),
+                                                  ('records=plates', lambda: _step('plate'))],
+                                         'data_source': [('', lambda: Other('str'))], 'mode': [('', lambda: Other('str'))],
+                                         'container_mode': [('container_mode=data', lambda: __import__('psa.unitai', fromlist=['S']).S('data'))],
+                                         'substance': [(f"substance={k}", (lambda k=k: Subst(k, 'substance'))) for k in KINDS]
+                                         + [('substance=all', lambda: __import__('psa.unitai', fromlist=['S']).S('all'))]},
+                              'interp': {'strict_other': False}}, []),
+    'Recipe.get_substance_used': (_mk_recipe_target({'timeframe': [('', lambda: Other('str'))],
+                                                     'destinations': [('', lambda: Other('destinations'))]}), []),
+    'Recipe.get_container_flows': (_mk_recipe_target({'timeframe': [('', lambda: Other('isa:str'))],
+                                                      'container': [('container', lambda: Cont('query')),
+                                                                    ('plate', lambda: Obj('Plate'))]}), []),
+    'Recipe.get_amount_remaining': (_mk_recipe_target({'timeframe': [('', lambda: Other('isa:str'))],
+                                                       'mode': [('', lambda: Other('str'))],
+                                                       'container': [('container', lambda: Cont('query')),
+                                                                     ('plate', lambda: Obj('Plate'))]}), []),
+})
